@@ -67,9 +67,14 @@ def float_text(canonical=True):
         # spellings that str(float(x)) reproduces: d.d without superfluous zeros
         return st.floats(min_value=-1e6, max_value=1e6, allow_nan=False, allow_infinity=False).map(
             lambda x: repr(round(x, 4))).filter(lambda s: "e" not in s)
-    sci = st.builds(lambda m, s, e: m + "e" + s + str(e), st.one_of(mant, plain_int),
+    # more digits than a double holds (printf %.20f style): the value is still the nearest double of the text
+    long_mant = st.builds(lambda s, a, b: s + a + "." + b,
+                          st.sampled_from(["", "", "-"]),
+                          st.one_of(st.just("0"), st.integers(1, 6).flatmap(digits)),
+                          st.text(alphabet=string.digits, min_size=15, max_size=28))
+    sci = st.builds(lambda m, s, e: m + "e" + s + str(e), st.one_of(mant, plain_int, mant, long_mant),
                     st.sampled_from(["", "-", "+"]), st.integers(0, 30))
-    return st.one_of(mant, plain_int, sci)
+    return st.one_of(mant, plain_int, sci, mant, long_mant)
 
 
 def seq_text(min_size=0, max_size=40, alphabet=DNA):
